@@ -179,8 +179,8 @@ func init() {
 			finish := r.next()
 			p := parsed[ui]
 			host := -1
-			for h := 0; h < simHosts; h++ {
-				if p != nil && p.Host == simHostPort(h) {
+			for h := 0; h <= simHosts; h++ {
+				if p != nil && simHostPort(h) != "" && p.Host == simHostPort(h) {
 					host = h
 				}
 			}
